@@ -22,13 +22,15 @@ STUBS = LOOP_STUBS + [
     "WorkerThread.start(): no-op (no OS thread); WorkerThread.queue: recording fake whose get() returns the queued item or the shutdown sentinel",
     "environment action 'thread of caller k runs' at a symbolic instant (tick, cycle offset): WorkerThread.run() executed synchronously in the loop thread for the queued item",
     "loop.call_soon_threadsafe == call_soon on the virtual loop (no self-pipe)",
+    "thread-local storage of the simulated worker threads (anyio's threadlocals) is swapped in and out by the harness (callback units only)",
+    "concurrent.futures.Future.result() (callback units only): instead of blocking the 'thread', keeps the virtual loop cycling until the future is done (VLoop.pump_until)",
 ]
 ASSUMPTIONS = ["the thread function runs atomically at the instant chosen by the environment (its internal duration is not modelled)",
                "limiter total symbolic in [1, ncallers]"]
-OUTSIDE = ["true thread interleavings / GIL-level races on idle_workers", "from_thread.run / run_sync called from inside the thread function (they block on a concurrent.futures.Future)",
+OUTSIDE = ["true thread interleavings / GIL-level races on idle_workers", "callbacks into the loop other than: one from_thread.run / run_sync per thread function, whose coroutine has no unshielded checkpoint; threads blocked in a callback finish in LIFO order",
            "idle worker pruning timing (MAX_IDLE_TIME)", "uvloop, trio"]
 MUST_REACH = ["thread:returned-value", "thread:raised", "thread:caller-cancelled-while-running-not-abandoned", "thread:abandoned", "thread:limiter-made-caller-wait",
-              "thread:check_cancelled-raised", "thread:cancelled-before-handoff"]
+              "thread:check_cancelled-raised", "thread:cancelled-before-handoff", "thread:called-back-into-the-loop", "thread:called-back-while-caller-cancelled"]
 
 
 class E(Exception):
@@ -59,6 +61,10 @@ cv = contextvars.ContextVar("c14", default=-1)
 
 def scn(sym, cov, n, funcs, cancel=None, abandon=False, eager=False, T=1, J=2, precancel=False, RJ=1, shielded_caller=False, cancel_outside_shield=False):
     """funcs[k]: 'ret' | 'raise' | 'ctx' | 'chk' (calls from_thread.check_cancelled()) | 'retexc' (RETURNS an exception instance)
+      | 'cbs' (calls back: from_thread.run_sync(sync function)) | 'cba' (from_thread.run(coroutine function without a checkpoint))
+      | 'cbc' (from_thread.run(coroutine function doing a shielded clean-up sleep)) -- for these the "thread" blocks on a
+        concurrent.futures.Future while the loop runs on: the environment action runs between two loop cycles and keeps the loop
+        cycling (VLoop.pump_until) until the future is done
     shielded_caller: the call is made directly inside a shielded scope, and it is THAT scope which gets cancelled
     cancel_outside_shield: (with shielded_caller) the scope AROUND the shielded one is cancelled instead: the shield holds"""
     import anyio
@@ -107,6 +113,21 @@ def scn(sym, cov, n, funcs, cancel=None, abandon=False, eager=False, T=1, J=2, p
                 return excs[k]  # a value that happens to be an exception object
             if funcs[k] == "ctx":
                 return ("ctx", cv.get())
+            if funcs[k] == "cbs":
+                def in_loop():
+                    st["cb_ran_%d" % k] = st.get("cb_ran_%d" % k, 0) + 1
+                    return v[k] + 1
+
+                return ("cb", from_thread.run_sync(in_loop))
+            if funcs[k] in ("cba", "cbc"):
+                async def in_loop_async():
+                    st["cb_ran_%d" % k] = st.get("cb_ran_%d" % k, 0) + 1
+                    if funcs[k] == "cbc":
+                        with CancelScope(shield=True):
+                            await anyio.sleep(1)
+                    return v[k] + 1
+
+                return ("cb", from_thread.run(in_loop_async))
             if funcs[k] == "chk":
                 try:
                     from_thread.check_cancelled()
@@ -118,6 +139,36 @@ def scn(sym, cov, n, funcs, cancel=None, abandon=False, eager=False, T=1, J=2, p
 
         f.k = k
         return f
+
+    callbacks = any(f in ("cbs", "cba", "cbc") for f in funcs)
+    import concurrent.futures as _cf
+
+    orig_result = _cf.Future.result
+
+    def pumping_result(self, timeout=None):
+        # the "thread" blocks on this future; meanwhile the event loop (the only real thread here) keeps running
+        if not self.done():
+            st["blocked_in_callback"] = st.get("blocked_in_callback", 0) + 1
+            mine = tls_swap(tls_stack[-1]) if tls_stack else None  # the loop thread runs with ITS thread-locals
+            try:
+                loop.pump_until(self.done)
+            finally:
+                if mine is not None:
+                    tls_stack[-1] = tls_swap(mine)
+        return orig_result(self, 0)
+
+    from anyio._core._eventloop import threadlocals as _tl
+
+    tls_stack: list = []
+
+    def tls_swap(new):
+        old = dict(_tl.__dict__)
+        _tl.__dict__.clear()
+        _tl.__dict__.update(new)
+        return old
+
+    if callbacks:
+        _cf.Future.result = pumping_result
 
     fns = [make_func(k) for k in range(n)]
 
@@ -138,11 +189,20 @@ def scn(sym, cov, n, funcs, cancel=None, abandon=False, eager=False, T=1, J=2, p
                     if k in inners:  # the caller sits in a shielded scope: only that scope's own cancellation counts
                         st["scope_eff_%d" % k] = inners[k].cancel_called
                     else:
-                        st["scope_eff_%d" % k] = scopes[k].cancel_called
-                    w.run()  # the REAL WorkerThread.run(): runs the function, reports via call_soon_threadsafe
+                            st["scope_eff_%d" % k] = scopes[k].cancel_called
+                    # thread-local storage is per thread: the simulated worker starts with an empty one, the loop thread's own
+                    # is put back whenever the worker blocks (pumping_result) or ends
+                    tls_stack.append(tls_swap({}))
+                    try:
+                        w.run()  # the REAL WorkerThread.run(): runs the function, reports via call_soon_threadsafe
+                    finally:
+                        tls_swap(tls_stack.pop())
                     return
             if k not in res and tries < 8:
-                loop.call_later(1, run_thread, k, tries + 1)
+                if callbacks:
+                    loop.call_later(1, lambda: loop.between.append((run_thread, (k, tries + 1))))
+                else:
+                    loop.call_later(1, run_thread, k, tries + 1)
 
         async def caller(k):
             with scopes[k]:
@@ -208,7 +268,7 @@ def scn(sym, cov, n, funcs, cancel=None, abandon=False, eager=False, T=1, J=2, p
         if cancel is not None and not precancel:
             loop.env_at(ct, cj, do_cancel)
         for k in range(n):
-            loop.env_at(rt[k], rj[k], run_thread, k)
+            (loop.env_between if callbacks else loop.env_at)(rt[k], rj[k], run_thread, k)
         async with anyio.create_task_group() as tg:
             for k in range(n):
                 tg.start_soon(caller, k)
@@ -227,6 +287,7 @@ def scn(sym, cov, n, funcs, cancel=None, abandon=False, eager=False, T=1, J=2, p
         raise Violation("liveness:CycleBudget")
     finally:
         B.WorkerThread.start, B.WorkerThread.__init__ = saved
+        _cf.Future.result = orig_result
     chk(not viol, viol[0][0] if viol else "", viol[:3])
     chk(st["borrowed_end"] == 0 and st["waiting_end"] == 0, "limiter-token-not-given-back", {"borrowed": st["borrowed_end"], "waiting": st["waiting_end"], "outcomes": {k: r.get("out") for k, r in res.items()}})
     for k in range(n):
@@ -242,6 +303,11 @@ def scn(sym, cov, n, funcs, cancel=None, abandon=False, eager=False, T=1, J=2, p
                 chk(r["value"] is excs.get(k), "returned-exception-object-not-returned-as-value", repr(r["value"]))
             elif funcs[k] == "ctx":
                 chk(r["value"] == ("ctx", 100 + k), "context-variable-not-visible-in-thread", r["value"])
+            elif funcs[k] in ("cbs", "cba", "cbc"):
+                chk(r["value"] == ("cb", v[k] + 1), "callback-into-the-loop-returned-wrong-value", {"got": r["value"], "want": v[k] + 1})
+                chk(st.get("cb_ran_%d" % k) == 1, "callback-into-the-loop-did-not-run-exactly-once", st.get("cb_ran_%d" % k))
+                cov.hit("thread:called-back-into-the-loop")
+                cov.hit("thread:called-back-while-caller-cancelled", k == cancel and bool(r.get("cancel_called_at_return")))
             elif funcs[k] == "chk":
                 want = bool(st.get("scope_eff_%d" % k))
                 chk(r["value"] == ("chk", want), "check_cancelled-wrong", {"raised": r["value"][1], "scope_cancelled": want})
@@ -290,6 +356,11 @@ def units(tier):
     add("1 retexc cancel", ["retexc"], cancel=0)
     add("1 chk in shielded scope, that scope cancelled", ["chk"], cancel=0, shielded_caller=True, J=2)
     add("1 chk in shielded scope, enclosing scope cancelled (shield holds)", ["chk"], cancel=0, shielded_caller=True, cancel_outside_shield=True, J=2)
+    add("1 cbs (from_thread.run_sync) cancel", ["cbs"], cancel=0, J=2)
+    add("1 cba (from_thread.run, no checkpoint) cancel", ["cba"], cancel=0, J=2)
+    add("1 cbc (from_thread.run, shielded clean-up) cancel", ["cbc"], cancel=0, J=1)
+    add("1 cba precancel", ["cba"], cancel=0, precancel=True)
+    add("2 cba+ret cancel0", ["cba", "ret"], cancel=0, RJ=0)
     add("2 ret+raise cancel0", ["ret", "raise"], cancel=0, RJ=0)
     add("2 ret+ret cancel1 abandon", ["ret", "ret"], cancel=1, abandon=True, RJ=0)
     add("2 ctx+chk cancel1", ["ctx", "chk"], cancel=1, RJ=0)
